@@ -52,13 +52,20 @@ func cmdVerify(args []string) {
 	}
 	bad := 0
 	for _, name := range fs.Args() {
-		fn, full, err := eng.LookupFunc(name)
-		if err != nil {
-			fmt.Println("ENGINE-ERROR:", err)
-			os.Exit(2)
-		}
+		var u *Unit
+		full := name
 		t0 := time.Now()
-		u := eng.VerifyFunction(fn, VerifyOpts{IgnoreRequires: *uncon})
+		if strings.HasPrefix(name, "lemmas:") {
+			u = eng.VerifyLemmas(modulePath+"/internal/"+strings.TrimPrefix(name, "lemmas:"), nil)
+		} else {
+			fn, f2, err := eng.LookupFunc(name)
+			if err != nil {
+				fmt.Println("ENGINE-ERROR:", err)
+				os.Exit(2)
+			}
+			full = f2
+			u = eng.VerifyFunction(fn, VerifyOpts{IgnoreRequires: *uncon})
+		}
 		fmt.Printf("== %s: %d obligations generated in %.2fs, %d asserts, %d decls\n", full, len(u.obls), time.Since(t0).Seconds(), len(u.asserts), len(u.W.decls))
 		for _, e := range u.errs {
 			fmt.Println("  ERROR:", e)
